@@ -14,7 +14,7 @@ def isnumber(value: str, max_len: typing.Union[int, None] = None) -> bool:
         return False
     value = value.strip()
     if value.startswith('+') or value.startswith('-'):
-        value = value[1:].strip()
+        value = value[1:]
     if max_len and len(value) > max_len:
         return False
     if value.count('.') == 1:
